@@ -186,3 +186,15 @@ Proof.
       injection H1 as <-; injection H2 as <-; apply H3; unfold int_in_range; cbn; lia.
   - right. exists 0, 2%Z, 2. repeat split. unfold int_in_range. cbn. lia.
 Qed.
+
+From Verif Require Import Proofs.IndexFacts Proofs.IndexOrder.
+
+(* the linear indices of the three theorems above never alias: two linear indices below size address one external position
+   only if they are equal, and two in-range external positions share a linear index (file name / dict key) only if they
+   are equal - for every external shape *)
+Theorem C07_linear_indices_do_not_alias : forall g : geom,
+  (forall i j, i < size g -> j < size g -> unravel (g_ext g) i = unravel (g_ext g) j -> i = j)
+  /\ (forall e1 e2, in_bounds (g_ext g) e1 = true -> in_bounds (g_ext g) e2 = true ->
+        ravel (g_ext g) e1 = ravel (g_ext g) e2 -> e1 = e2).
+Proof. intros g. exact (conj (unravel_inj (g_ext g)) (ravel_inj (g_ext g))). Qed.
+Print Assumptions C07_linear_indices_do_not_alias.
